@@ -57,7 +57,8 @@ def codec(
     marshal = marshaller or marshals.marshaller(t=t)
     unmarshal = unmarshaller or unmarshals.unmarshaller(t=t)
     cls = codec_cls or Codec
-    if inspection.isbytestype(t):
+    # (NewType / alias / Final wrappers of a bytes type are bytes types.)
+    if inspection.isbytestype(inspection.origin(inspection.unwrap(t))):
         cdc = cls(
             marshal=marshal,
             unmarshal=unmarshal,
